@@ -225,13 +225,19 @@ deriving DecidableEq, Repr, Inhabited
 
 def isWAccessTag (s : String) : Bool := s == "Interval" || s == "Point"
 
+/-- the node classes `lift_cursor` has a public cursor class for (fnarg, statements, expressions);
+    anything else (proc, types, w_access, loop modes) is `assert False, "bad case"` -/
+def isLiftableTag (s : String) : Bool :=
+  ["fnarg", "Assign", "Reduce", "WriteConfig", "Pass", "If", "For", "Alloc", "Call", "WindowStmt",
+   "Read", "ReadConfig", "Const", "USub", "BinOp", "Extern", "WindowExpr", "StrideExpr"].contains s
+
 /-- `lift_cursor` as far as navigation is concerned: blocks must be non-empty, the proc node has no
     public cursor class ("bad case") -/
 def lift (t : NTree) : Cursor → R Pub
   | .block a attr lo hi => if rangeLen lo hi > 0 then pure (.cur (.block a attr lo hi)) else throw .assertion
   | .node p =>
     match resolve t p with
-    | some n => if n.tag == "proc" then throw .assertion else pure (.cur (.node p))
+    | some n => if isLiftableTag n.tag then pure (.cur (.node p)) else throw .assertion   -- "bad case"
     | none => throw .attribute
   | c => pure (.cur c)
 
